@@ -123,6 +123,8 @@ class Z3Backend:
     def member(self, t, S): return z3.IsMember(t, S)
     # logic
     def eq(self, a, b): return a == b
+    def iff(self, a, b): return a == b
+    def neg(self, a): return -a
     def and_(self, *xs): return z3.And(*xs)
     def or_(self, *xs): return z3.Or(*xs)
     def not_(self, x): return z3.Not(x)
@@ -613,7 +615,7 @@ def _(B, cs, ts, a, b, d, Y):
 # ---- integer arithmetic (range literals)
 @law("mod-congruence", "T1", "x:Int a:Int s:Int", None, status="assumed, bounded-checked (Mathlib: Int.emod_emod_of_dvd / Int.emod_eq_emod_iff_emod_sub_eq_zero)")
 def _(B, x, a, s):
-    return B.implies(B.lt(B.i(0), s), B.eq(B.eq(B.emod(B.sub(x, a), s), B.i(0)), B.eq(B.emod(x, s), B.emod(a, s))))
+    return B.implies(B.lt(B.i(0), s), B.iff(B.eq(B.emod(B.sub(x, a), s), B.i(0)), B.eq(B.emod(x, s), B.emod(a, s))))
 
 
 @law("floor-division", "T1", "d:Int s:Int", None)
@@ -626,6 +628,17 @@ def _(B, d, s):
 @law("emod-small-negative", "T1", "y:Int s:Int", None)
 def _(B, y, s):
     return B.implies(B.and_(B.lt(B.i(0), s), B.lt(B.sub(B.i(0), s), y), B.lt(y, B.i(0))), B.eq(B.emod(y, s), B.add(y, s)))
+
+
+# a non-empty descending range has the elements of the ascending range from its smallest element (the rewriting done by
+# sql.Engine.convert_predicate): nonlinear (quotient times step), proved in Lean, used through explicit instances
+@law("desc-range", "T1", "a:Int b:Int s:Int x:Int", None)
+def _(B, a, b, s, x):
+    k = B.neg(s)
+    m = B.add(a, B.mul(B.ediv(B.sub(B.sub(a, b), B.i(1)), k), s))
+    return B.implies(B.and_(B.lt(s, B.i(0)), B.lt(b, a)),
+                     B.iff(B.and_(B.lt(b, x), B.le(x, a), B.eq(B.emod(B.sub(a, x), k), B.i(0))),
+                           B.and_(B.le(m, x), B.le(x, a), B.eq(B.emod(B.sub(x, m), k), B.i(0)))))
 
 
 def instance(name: str, *args):
